@@ -6,6 +6,7 @@ import RV.Base.Proto
     row c1 c2 …           -> ok            (one pattern solution; cell = term token or `-`)
     q <query tokens>      -> v1,v2#row;row;…   (evalQuery on the stored solutions; row = cells joined by `,`)
   term tokens:  I.<dt>.<int>  D.<m>.<s>  F.<dt>.<m>.<s>  B.0|1  S.<cps>.<langcps>  U.<cps>  N.<cps>   (cps = code points joined by `_`)
+                T.<y>.<mo>.<d>.<h>.<mi>.<s>.<tz minutes|->  (xsd:dateTime)   Y.<y>.<mo>.<d>  (xsd:date)
   query tokens: mod(N|D|R) offset(n|-) limit(n|-) nuser  (-| k (gv i | ga i E | ge E)…)  nproj (pv v | pe v E)…  (0 | 1 E)  nord ((A|D) E)…
   E: v i | c term | + E E | - E E | cmp (lt|gt|eq|ne|le|ge) E E | and E E | agg kind d(0|1) sep(-|s<cps>) (* | E)
   answer cells: Q.<dt>.<num>.<den>.<scale>  B.0|1  S.<cps>.<langcps>  U.<cps>  N.<cps>  -
@@ -44,6 +45,20 @@ def term? (tk : String) : Option Val :=
   | ["N", s] => do
     let s ← cps? s
     pure (some (.bnode s))
+  | ["T", y, mo, d, h, mi, sec, tz] => do
+    let y ← y.toNat?
+    let mo ← mo.toNat?
+    let d ← d.toNat?
+    let h ← h.toNat?
+    let mi ← mi.toNat?
+    let sec ← sec.toNat?
+    let tz ← (if tz = "-" then some none else tz.toInt?.map some)
+    pure (some (.dateTime ⟨y, mo, d, h, mi, sec, tz⟩))
+  | ["Y", y, mo, d] => do
+    let y ← y.toNat?
+    let mo ← mo.toNat?
+    let d ← d.toNat?
+    pure (some (.date ⟨y, mo, d⟩))
   | _ => none
 
 def showVal : Val → String
@@ -53,6 +68,8 @@ def showVal : Val → String
   | some (.num d v sc) => s!"Q.{d.name}.{v.num}.{v.den}.{sc}"
   | some (.bool b) => if b then "B.1" else "B.0"
   | some (.str l g) => s!"S.{showCps l}.{showCps g}"
+  | some (.dateTime f) => s!"T.{f.y}.{f.mo}.{f.d}.{f.h}.{f.mi}.{f.s}." ++ (match f.tz with | none => "-" | some z => toString z)
+  | some (.date f) => s!"Y.{f.y}.{f.mo}.{f.d}"
 
 def aggK? : String → Option AggK
   | "count" => some .count | "sum" => some .sum | "avg" => some .avg | "min" => some .min
